@@ -212,10 +212,10 @@ var plans = map[string]Plan{
 		Pkg:   "c15",
 		Tools: []string{"bondmachine"},
 		Runs: []Run{
-			{Test: "^TestProps$/^rule_roundtrip$", Checks: checks(5000, 100000), Shards: shards(4, 16)},
-			{Test: "^TestProps$/^sim_rules$", Checks: checks(1500, 30000), Shards: shards(4, 16)},
-			{Test: "^TestProps$/^sim_pipeline$", Checks: checks(1200, 30000), Shards: shards(4, 16)},
-			{Test: "^TestProps$/^cli_rules$", Checks: checks(30, 800), Shards: shards(4, 16)},
+			{Test: "^TestProps$/^rule_roundtrip$", Checks: checks(5000, 40000), Shards: shards(4, 16)},
+			{Test: "^TestProps$/^sim_rules$", Checks: checks(1500, 12000), Shards: shards(4, 16)},
+			{Test: "^TestProps$/^sim_pipeline$", Checks: checks(1200, 12000), Shards: shards(4, 16)},
+			{Test: "^TestProps$/^cli_rules$", Checks: checks(30, 300), Shards: shards(4, 16)},
 		},
 		Fuzz: []Fuzz{{Target: "FuzzSimboxAdd", Time: 3 * time.Minute}},
 		Assumptions: []string{
